@@ -88,13 +88,13 @@ def parse_records(stdout: str):
     return recs
 
 
-MAX_OUTPUT = 400 << 20
+MAX_OUTPUT = 1536 << 20      # per TLC run; a run whose records are legitimately larger passes max_output
 
 
 def run_tlc(module: str, cfg: str, workdir: str, *, workers=1, timeout=600,
             simulate: str | None = None, depth: int | None = None, seed: int | None = None,
             env_extra: dict | None = None, java_opts: list | None = None,
-            coverage: bool = False, deadlock: bool = False, dfs: bool = False) -> TLCResult:
+            coverage: bool = False, deadlock: bool = False, dfs: bool = False, max_output: int | None = None) -> TLCResult:
     """Run TLC on workdir/module.tla with workdir/cfg.  SPECS is on the path
     through -DTLA-Library."""
     meta = tempfile.mkdtemp(prefix="tlcmeta_", dir=workdir)
@@ -126,6 +126,7 @@ def run_tlc(module: str, cfg: str, workdir: str, *, workers=1, timeout=600,
     # every state of it (gigabytes for a program with thousands of iterations), and a reader that swallows that is
     # killed by the kernel -- with a worker pool waiting for it for ever
     outpath = os.path.join(meta, "tlc.out")
+    cap = max_output or MAX_OUTPUT
     try:
         with open(outpath, "wb") as fout:
             proc = subprocess.Popen(cmd, cwd=workdir, env=env, stdout=fout, stderr=subprocess.STDOUT)
@@ -135,7 +136,7 @@ def run_tlc(module: str, cfg: str, workdir: str, *, workers=1, timeout=600,
                     r.rc = proc.wait(timeout=2)
                     break
                 except subprocess.TimeoutExpired:
-                    too_big = os.path.getsize(outpath) > MAX_OUTPUT
+                    too_big = os.path.getsize(outpath) > cap
                     if time.time() > deadline or too_big:
                         proc.kill()
                         proc.wait()
@@ -145,7 +146,7 @@ def run_tlc(module: str, cfg: str, workdir: str, *, workers=1, timeout=600,
                         break
         size = os.path.getsize(outpath)
         with open(outpath, "rb") as fin:
-            if size <= MAX_OUTPUT:
+            if size <= cap:
                 data = fin.read()
             else:
                 head = fin.read(4 << 20)
@@ -170,7 +171,7 @@ def run_tlc(module: str, cfg: str, workdir: str, *, workers=1, timeout=600,
     if getattr(r, "flooded", False):
         errs = [ln for ln in out.splitlines() if ln.startswith("Error:")]
         if r.violation is None:
-            r.error = "TLC printed more than %d MB and was stopped: %s" % (MAX_OUTPUT >> 20, " ".join(errs[:3]))
+            r.error = "TLC printed more than %d MB and was stopped: %s" % (cap >> 20, " ".join(errs[:3]))
         return r
     if r.rc not in (0, None) and r.violation is None and not r.timed_out:
         errs = [ln for ln in out.splitlines() if ln.startswith("Error:") or "Exception" in ln]
